@@ -111,9 +111,10 @@ theorem C01_recorded_perm {γ} (s : St) (hinv : InvA s) (hsok : ∀ u ∈ buffer
   have e1 : ((views s).flatMap (fun v => (C01_recorded v).map (fun o => (false, F v o)))).map Prod.snd =
       (views s).flatMap (fun v => (C01_recorded v).map (F v)) := by
     rw [List.map_flatMap]; congr 1; funext v; rw [List.map_map]; rfl
-  have e2 : (((buffered s).map (fun u => (u.synth, G u.th u.t u.weight))).filter (fun x => !x.1)).map Prod.snd =
+  have e2 : ((((buffered s).filter (fun u => !u.marker)).map (fun u => (u.synth, G u.th u.t u.weight))).filter
+        (fun x => !x.1)).map Prod.snd =
       ((buffered s).filter (fun u => !u.synth)).map (fun u => G u.th u.t u.weight) := by
-    rw [List.filter_map, List.map_map]; rfl
+    rw [List.filter_map, List.map_map, ← filter_marker_synthU (buffered s)]; rfl
   rw [e1, e2] at h2
   exact h2
 
